@@ -172,7 +172,8 @@ impl<'a> Evaluator<'a> {
                                 }
                             }
                             if flags.contains(ExpressionFactorFlags::NEG) {
-                                number = -number;
+                                // Wraps around on overflow, like all other arithmetic
+                                number = number.wrapping_neg();
                             }
                             Ok(Some(number.into()))
                         }
